@@ -28,6 +28,8 @@ type c18Chan struct {
 	side  int    // index of the PeerConnection that holds this object (0 offerer, 1 answerer)
 	kind  string // auto | explicit | remote
 	label string
+	ord   int64 // position in the pair's creation order (CreateDataChannel returned / OnDataChannel fired)
+	pre   bool  // created before signalling started, i.e. opened later by SCTPTransport.Start in creation order
 	mu    sync.Mutex
 	seq   []int    // distinct consecutive ID() observations, -1 = nil
 	where []string // where each element of seq was first observed
@@ -62,9 +64,12 @@ type c18Pair struct {
 	chans [2][]*c18Chan
 	errs  map[string]int
 	nLbl  atomic.Int64
+	nOrd  atomic.Int64
+	live  atomic.Bool // set when signalling starts: channels created from then on are not "pre"
 }
 
 func (p *c18Pair) add(c *c18Chan) {
+	c.ord = p.nOrd.Add(1)
 	p.mu.Lock()
 	p.chans[c.side] = append(p.chans[c.side], c)
 	p.mu.Unlock()
@@ -105,13 +110,14 @@ func c18ErrKey(err error) string {
 // createAuto calls CreateDataChannel without an id (non-negotiated): the PeerConnection has to assign the id.
 func (p *c18Pair) createAuto(side int, tag string, init *DataChannelInit) {
 	label := fmt.Sprintf("a%d-%s-%d", side, tag, p.nLbl.Add(1))
+	pre := !p.live.Load()
 	dc, err := p.pcs[side].CreateDataChannel(label, init)
 	if err != nil {
 		p.noteErr(err)
 
 		return
 	}
-	c := &c18Chan{dc: dc, side: side, kind: "auto", label: label}
+	c := &c18Chan{dc: dc, side: side, kind: "auto", label: label, pre: pre}
 	c.sample("created")
 	dc.OnOpen(func() { c.sample("onopen") })
 	p.add(c)
@@ -122,13 +128,14 @@ func (p *c18Pair) createExplicit(id uint16, tag string) {
 	for side := 0; side < 2; side++ {
 		v, yes := id, true // fresh variables: the PeerConnection keeps the pointer it is given
 		label := fmt.Sprintf("x%d-%s-%d", side, tag, id)
+		pre := !p.live.Load()
 		dc, err := p.pcs[side].CreateDataChannel(label, &DataChannelInit{ID: &v, Negotiated: &yes})
 		if err != nil {
 			p.noteErr(err)
 
 			continue
 		}
-		c := &c18Chan{dc: dc, side: side, kind: "explicit", label: label}
+		c := &c18Chan{dc: dc, side: side, kind: "explicit", label: label, pre: pre}
 		c.sample("created")
 		dc.OnOpen(func() { c.sample("onopen") })
 		p.add(c)
@@ -183,6 +190,7 @@ type c18Checker struct {
 	role     [2]string // client | server, from the SDP
 	desc     func() string
 	reported map[string]bool
+	nviol    int
 	reuse    map[string]bool
 	autoIDs  [2]map[int]bool
 }
@@ -192,6 +200,7 @@ func (ck *c18Checker) violate(key, sig, what string, detail map[string]any) {
 		return
 	}
 	ck.reported[key] = true
+	ck.nviol++
 	detail["case"] = ck.desc()
 	detail["roles"] = fmt.Sprintf("offerer=%s answerer=%s", ck.role[0], ck.role[1])
 	ck.run.Violation(sig, what+" ["+ck.desc()+"]", ck.idx, detail)
@@ -269,11 +278,24 @@ func (ck *c18Checker) check(where string, quiescent bool) { //nolint:gocognit,cy
 					}
 					kinds := []string{x.c.kind, y.c.kind}
 					sort.Strings(kinds)
-					ck.violate(key, "duplicate-id:"+kinds[0]+"-vs-"+kinds[1],
+					// history class of the pair (part of the cause): were both created before signalling started (ids are
+					// then handed out later, by SCTPTransport.Start, in creation order), and which of the two is older
+					hist := "on-live-connection"
+					if x.c.pre && y.c.pre {
+						older := x.c
+						if y.c.ord < x.c.ord {
+							older = y.c
+						}
+						hist = "both-pre-connect:" + older.kind + "-created-first"
+					} else if x.c.pre || y.c.pre {
+						hist = "one-pre-connect"
+					}
+					ck.violate(key, "duplicate-id:"+kinds[0]+"-vs-"+kinds[1]+":"+hist,
 						fmt.Sprintf("side %d (%s): id %d is held by %s channel %q (%s) and %s channel %q (%s) at the same time (%s)",
 							side, ck.role[side], id, x.c.kind, x.c.label, x.state, y.c.kind, y.c.label, y.state, where),
 						map[string]any{"side": side, "id": id, "a": x.c.label, "a_kind": x.c.kind, "a_state": x.state.String(),
-							"b": y.c.label, "b_kind": y.c.kind, "b_state": y.state.String(), "at": where})
+							"b": y.c.label, "b_kind": y.c.kind, "b_state": y.state.String(), "at": where,
+							"a_created_pre_connect": x.c.pre, "b_created_pre_connect": y.c.pre, "a_order": x.c.ord, "b_order": y.c.ord})
 				}
 			}
 		}
@@ -384,9 +406,10 @@ func c18Other(role string) string {
 }
 
 func TestVerifC18(t *testing.T) { //nolint:gocognit,cyclop,maintidx
-	run := kit.Start(t, "C18", "seeded pion pairs, answerer's DTLS role alternating client/server (SettingEngine.SetAnsweringDTLSRole); per pair: negotiated "+
-		"explicit ids of both parities created first on both peers, then CreateDataChannel without id from 1..8 goroutines per peer before the "+
-		"connection exists, while it is being established, and after (both peers concurrently), random closes followed by new creations; every 6th pair "+
+	run := kit.Start(t, "C18", "seeded pion pairs, answerer's DTLS role alternating client/server (SettingEngine.SetAnsweringDTLSRole); per pair: a generated "+
+		"pre-connection program of negotiated explicit ids of both parities (on both peers), single in-band creations and one concurrent step "+
+		"(CreateDataChannel without id from 0..8 goroutines per peer) in explicit-first / in-band-first / interleaved order, then in-band creations "+
+		"while the connection is being established, and after (explicit ids among the free ones, then both peers concurrently), random closes followed by new creations; every 6th pair "+
 		"runs at the end of the id range (used-set pre-filled white-box up to ~65500..65531 + real explicit channels in 65526..65534). ID() of every "+
 		"channel object sampled at creation, in OnOpen, by a background sampler and after each step. A pair is non-trivial when at least two ids were "+
 		"auto-assigned on one peer that also held an explicit or remote-created channel; distinct by the generated operation list")
@@ -469,7 +492,13 @@ func TestVerifC18(t *testing.T) { //nolint:gocognit,cyclop,maintidx
 			op("prefill<%d holes=%d", upTo, len(holes))
 		}
 
-		// ---- phase 0: before the connection exists. Explicit ids first, so that the allocator has to skip them.
+		// ---- phase 0: before the connection exists: no id has been assigned yet (every in-band channel shows ID()==nil), so
+		// the application may claim ANY id for a negotiated channel. The phase is a generated program over three kinds of
+		// step: x<id> (negotiated channel <id> on both peers), a<side> (one in-band channel on <side>) and C (the concurrent
+		// step: 0..8 goroutines per peer creating in-band channels). The order is part of the case: explicit ids claimed
+		// BEFORE the in-band channels exist (the allocator sees them reserved from the start), AFTER them (the in-band
+		// channels are older in the transport's list, are opened first by SCTPTransport.Start and must still not be given
+		// an id that was claimed later) or interleaved.
 		var explicit []uint16
 		if boundary {
 			for id := 65526; id <= 65534; id++ {
@@ -486,10 +515,35 @@ func TestVerifC18(t *testing.T) { //nolint:gocognit,cyclop,maintidx
 		}
 		kit.Shuffle(r, explicit)
 		nPreExplicit := r.Intn(len(explicit) + 1)
-		for _, id := range explicit[:nPreExplicit] {
-			p.createExplicit(id, "pre")
+		type preStep struct {
+			kind string // x | a | C
+			id   uint16
+			side int
+			init *DataChannelInit
 		}
-		op("pre-explicit=%v", explicit[:nPreExplicit])
+		var prog []preStep
+		for _, id := range explicit[:nPreExplicit] {
+			prog = append(prog, preStep{kind: "x", id: id})
+		}
+		seqInits := c18Inits(r, r.Intn(7))
+		var seqAutos []preStep
+		for _, in := range seqInits {
+			seqAutos = append(seqAutos, preStep{kind: "a", side: r.Intn(2), init: in})
+		}
+		conc := preStep{kind: "C"}
+		orderMode := []string{"explicit-first", "inband-first", "interleaved", "interleaved"}[r.Intn(4)]
+		switch orderMode {
+		case "explicit-first":
+			prog = append(append(prog, conc), seqAutos...)
+		case "inband-first":
+			prog = append(append([]preStep{conc}, seqAutos...), prog...)
+		default:
+			prog = append(prog, seqAutos...)
+			kit.Shuffle(r, prog)
+			at := r.Intn(len(prog) + 1)
+			prog = append(prog[:at], append([]preStep{conc}, prog[at:]...)...)
+		}
+		run.Seen("pre_order_mode", orderMode)
 
 		genInits := func(tag string) [2][][]*DataChannelInit {
 			var out [2][][]*DataChannelInit
@@ -522,14 +576,31 @@ func TestVerifC18(t *testing.T) { //nolint:gocognit,cyclop,maintidx
 		}
 
 		pre := genInits("pre")
-		wg, start := step("pre", pre, false)
-		close(start)
-		wg.Wait()
+		var wg *sync.WaitGroup
+		var start chan struct{}
+		var progDesc []string
+		for _, st := range prog {
+			switch st.kind {
+			case "x":
+				p.createExplicit(st.id, "pre")
+				progDesc = append(progDesc, fmt.Sprintf("x%d", st.id))
+			case "a":
+				p.createAuto(st.side, "pre.seq", st.init)
+				progDesc = append(progDesc, fmt.Sprintf("a%d", st.side))
+			default:
+				wg, start = step("pre", pre, false)
+				close(start)
+				wg.Wait()
+				progDesc = append(progDesc, "C")
+			}
+		}
+		op("pre-order=%s pre-program=[%s]", orderMode, strings.Join(progDesc, " "))
 		ck.check("after-pre", false)
 
 		// ---- phase 1: creations racing with the connection set-up (SCTP start snapshots the channel list)
 		during := genInits("during")
 		wg, start = step("during", during, true)
+		p.live.Store(true)
 		close(start)
 		_, answer, err := rigExchange(p.pcs[0], p.pcs[1], nil, nil)
 		if err != nil {
@@ -571,6 +642,13 @@ func TestVerifC18(t *testing.T) { //nolint:gocognit,cyclop,maintidx
 			// once both queues are drained and all CreateDataChannel calls have returned, no id allocation is in flight.
 			rigDrain(p.pcs[0])
 			rigDrain(p.pcs[1])
+			// Ids are write-once, so two live channels that share an id now will share it forever: judge uniqueness before
+			// waiting for the remote announcements (a channel that shares its stream with another one may never be announced,
+			// which would otherwise end in the settle watchdog and an inconclusive case instead of the witness).
+			ck.check(where+"-drained", true)
+			if ck.nviol > 0 {
+				return false
+			}
 			if boundary {
 				p.waitStable(3 * time.Second)
 
@@ -730,6 +808,35 @@ func TestVerifC18(t *testing.T) { //nolint:gocognit,cyclop,maintidx
 		nontrivial := false
 		total := 0
 		for side := 0; side < 2; side++ {
+			// pre-connection order classes actually exercised on this peer: a negotiated id claimed while older in-band
+			// channels were still waiting for their id, and whether the allocator then really had to step over it
+			// (an older in-band channel ended up with a higher id of the same parity).
+			list := p.list(side)
+			for _, x := range list {
+				xid := x.sample("end")
+				if x.kind != "explicit" || !x.pre || xid < 0 {
+					continue
+				}
+				older, stepped := 0, false
+				for _, a := range list {
+					if a.kind != "auto" || !a.pre || a.ord > x.ord {
+						continue
+					}
+					older++
+					if aid := a.sample("end"); aid > xid && aid%2 == xid%2 {
+						stepped = true
+					}
+				}
+				switch {
+				case older == 0:
+					run.Count("pre_explicit_claimed_before_any_inband", 1)
+				case stepped:
+					run.Count("pre_explicit_claimed_after_inband", 1)
+					run.Count("pre_explicit_claimed_after_inband_and_stepped_over", 1)
+				default:
+					run.Count("pre_explicit_claimed_after_inband", 1)
+				}
+			}
 			others := 0
 			for _, c := range p.list(side) {
 				if c.kind != "auto" && c.sample("end") >= 0 {
